@@ -40,6 +40,17 @@ REQUIRED = {'quick': {'steps.checked': 4000, 'resets.checked': 100, 'index_mappi
                       'state_wrapper.steps': 500, 'route.direct': 20, 'route.entry_point': 20, 'route.gym_make': 20, 'resets.back_to_back': 100, 'steps.after_terminal': 20}}
 
 
+def _other_spaces():
+    from gym_gridverse.geometry import Shape
+    from gym_gridverse.grid_object import Color, Door, Floor, Key, Wall
+    from gym_gridverse.spaces import ObservationSpace
+    return [ObservationSpace(Shape(3, 3), [Floor, Wall], [Color.NONE]),
+            ObservationSpace(Shape(5, 7), [Floor, Wall, Door, Key], [Color.NONE, Color.RED, Color.BLUE, Color.YELLOW])]
+
+
+OTHER_SPACES = _other_spaces()
+
+
 def same_dict(a, b):
     return isinstance(a, dict) and set(a) == set(b) and all(
         isinstance(a[k], np.ndarray) and a[k].shape == b[k].shape and a[k].dtype.kind == b[k].dtype.kind and np.array_equal(a[k], b[k])
@@ -150,7 +161,9 @@ def run_route(ctx, route, name, path, seed, nsteps):
     features = set()
 
     def check_obs(got, o, what):
-        want = orep.convert(o)
+        # the expectation comes from a representation object made now, after the adapter has answered (other representation
+        # objects come and go during the run, see below)
+        want = make_observation_representation(rep_name, twin.observation_space).convert(o)
         if not same_dict(got, want):
             ctx.violation('adapter', f'{what}.observation_differs',
                           f'{label}: {what} returned arrays that are not the {rep_name} representation of the observation of the '
@@ -217,6 +230,13 @@ def run_route(ctx, route, name, path, seed, nsteps):
                 if not same_dict(genv.state, srep.convert(s)):
                     ctx.violation('adapter', 'state.differs', f'{label}: GymEnvironment.state is not the {rep_name} representation of the state',
                                   'gym_case', payload)
+        if t % 7 == 3:
+            # elsewhere in the process other representation objects are created (other names, other spaces) and dropped
+            other = rng.choice([n_ for n_ in repgen.NAMES if n_ != rep_name])
+            make_observation_representation(other, OTHER_SPACES[t % len(OTHER_SPACES)])
+            if srep_ok:
+                make_state_representation(other, twin.state_space)
+            ctx.hit('hostile.representations_created')
         i = rng.randrange(n_actions)
         spy.actions.clear()
         # the index may arrive as any integer member of Discrete(n): Python int, numpy scalar, 0-d array
@@ -275,17 +295,35 @@ def boot_repo():
     return boot.REPO
 
 
-def state_wrapper(ctx, name, path, seed, nsteps):
-    payload = {'config': name, 'route': 'state_wrapper', 'seed': seed, 'nsteps': nsteps}
-    label = f'{name} GymStateWrapper seed={seed}'
-    inner = factory_env_from_yaml(path)
-    if not inner.state_space.can_be_represented:
-        return
+def state_wrapper(ctx, name, path, seed, nsteps, via_make=False):
+    payload = {'config': name, 'route': 'state_wrapper_over_gym_make' if via_make else 'state_wrapper', 'seed': seed, 'nsteps': nsteps}
+    label = f'{name} GymStateWrapper{" over gym.make" if via_make else ""} seed={seed}'
     rep_name = repgen.NAMES[seed % 3]
-    outer = OuterEnv(inner, observation_representation=make_observation_representation(rep_name, inner.observation_space),
-                     state_representation=make_state_representation(rep_name, inner.state_space))
-    genv = gv_gym.GymEnvironment(outer)
-    wrapper = gv_gym.GymStateWrapper(genv)
+    handles = []
+    if via_make:
+        # the wrapper around what gym.make returns (gym's own wrappers sit between it and the adapter)
+        env_id = id_for(name)
+        if env_id not in gv_gym.STRING_TO_YAML_FILE:
+            return
+        made = gym.make(env_id, disable_env_checker=True)
+        genv = made.unwrapped
+        inner = genv.outer_env.inner_env
+        if not inner.state_space.can_be_represented:
+            return
+        made.set_state_representation(rep_name)
+        made.set_observation_representation(rep_name)
+        wrapper = gv_gym.GymStateWrapper(made)
+        handles = [('the adapter', genv), ('the environment returned by gym.make', made)]
+        ctx.hit('state_wrapper.over_gym_make')
+    else:
+        inner = factory_env_from_yaml(path)
+        if not inner.state_space.can_be_represented:
+            return
+        outer = OuterEnv(inner, observation_representation=make_observation_representation(rep_name, inner.observation_space),
+                         state_representation=make_state_representation(rep_name, inner.state_space))
+        genv = gv_gym.GymEnvironment(outer)
+        wrapper = gv_gym.GymStateWrapper(genv)
+        handles = [('the adapter', genv)]
     twin = compose.build_env(compose.load_yaml(path))
     inner.set_seed(seed)
     twin.set_seed(seed)
@@ -305,6 +343,24 @@ def state_wrapper(ctx, name, path, seed, nsteps):
         return
     rng = gen.rng_for('C20sw', name, seed)
     for t in range(nsteps):
+        if t % 25 == 12:
+            # the observation representation is switched through the wrapper's own handle, mid-episode: every handle keeps
+            # advertising the space of what is now passed through info
+            new = rng.choice(repgen.NAMES)
+            ok, res = call_real(wrapper.set_observation_representation, new)
+            if not ok:
+                ctx.violation('adapter', 'state_wrapper.switch_raises', f'{label}: set_observation_representation({new}) through the wrapper '
+                              f'raised {describe_exc(res)}', 'gym_case', payload)
+                return
+            orep = make_observation_representation(new, twin.observation_space)
+            ctx.hit('state_wrapper.switches')
+            want_space = gv_gym.outer_space_to_gym_space(orep.space)
+            for hname, handle in handles:
+                if not spaces_equal(handle.observation_space, want_space):
+                    ctx.violation('adapter', 'state_wrapper.switch_observation_space_not_updated',
+                                  f'{label}: after set_observation_representation({new}) through the wrapper, {hname} advertises a stale '
+                                  f'observation space', 'gym_case', payload)
+                    return
         i = rng.randrange(genv.action_space.n)
         ok, res = call_real(wrapper.step, i)
         ctx.ev()
@@ -322,6 +378,11 @@ def state_wrapper(ctx, name, path, seed, nsteps):
         if not isinstance(info, dict) or not same_dict(info.get('observation'), orep.convert(o)):
             ctx.violation('adapter', 'state_wrapper.info_observation', f'{label}: info["observation"] is not the observation representation',
                           'gym_case', payload)
+            return
+        okc, inside = call_real(genv.observation_space.contains, info['observation'])
+        if not okc or not inside:
+            ctx.violation('adapter', 'state_wrapper.info_observation_outside_advertised_space',
+                          f'{label}: info["observation"] lies outside the observation space the adapter advertises', 'gym_case', payload)
             return
         if repr(r) != repr(r2) or bool(done) != bool(d2):
             ctx.violation('adapter', 'state_wrapper.reward_or_flag', f'{label}: ({r!r},{done!r}) vs inner ({r2!r},{d2!r})', 'gym_case', payload)
@@ -357,6 +418,7 @@ def run(ctx):
             job += 1
             if ctx.mine(job) and not ctx.out_of_time(0.95):
                 state_wrapper(ctx, name, path, ctx.seed * 100 + 7, nsteps)
+                state_wrapper(ctx, name, path, ctx.seed * 100 + 8, nsteps, via_make=True)
         ctx.sample('case', {'routes': ['direct', 'entry_point', 'gym_make', 'state_wrapper'], 'nsteps': nsteps,
                             'representation_switch_every': 40})
 
@@ -364,6 +426,7 @@ def run(ctx):
 def replay(ctx, kind, payload):
     configs = {n: p for n, p, d in compose.shipped_configs()}
     if payload['route'] == 'state_wrapper':
-        state_wrapper(ctx, payload['config'], configs[payload['config']], payload['seed'], payload['nsteps'])
+        state_wrapper(ctx, payload['config'], configs[payload['config']], payload['seed'], payload['nsteps'],
+                      via_make=payload.get('route') == 'state_wrapper_over_gym_make')
     else:
         run_route(ctx, payload['route'], payload['config'], configs[payload['config']], payload['seed'], payload['nsteps'])
